@@ -28,7 +28,7 @@ class Gen:
             return {"op": "clear"}
         if kind == "setmodel":
             return {"op": "setmodel", "model": r.choice([1, 2, 3, 4, 0, 5])}
-        return {"op": r.choice(["update", "incr"]), "text": r.choice(['rule "pa" begin return 1', "   ", 'rule "pa" begin end rule "pa" begin end'])}
+        return {"op": r.choice(["update", "incr"]), "text": r.choice(['rule "pa" begin return 1', "   ", 'rule "pa" begin end rule "pa" begin end', 'rule "pz" "vz" begin x = 1 # end', 'rule "pz" begin return 1 end $'])}
 
 
 def scenario(sid, mn, mx, ops, gen):
@@ -68,6 +68,11 @@ def make_scenarios(rng, tier):
         inc = g.op("incr")
         scs.append(scenario(sid, 1, 2, [g.op("update"), inc, g.op(mid), dict(inc)], g))
         sid += 1
+    # texts that do not compile — syntax errors, duplicate names, characters no token starts with — through both update paths
+    for k in ("update", "incr"):
+        for t in ('rule "pz" "vz" begin x = 1 # end', 'rule "pz" begin return 1 end $', 'rule "pa" begin return 1'):
+            scs.append(scenario(sid, 2, 3, [{"op": k, "text": t}, g.op("incr")], g))
+            sid += 1
     # a pool EMPTIED by removals is not a cleared pool; clearing it afterwards must still clear it
     for tail in ([], ["incr"], ["update"], ["setmodel"]):
         ops = [{"op": "remove", "names": list(RN)}, {"op": "clear"}] + [g.op(k) for k in tail]
